@@ -59,6 +59,19 @@ def snippet(n, c, upper):
         site = c["site"]
         if site == "ann":
             return "k%d :: () { x : %s = %s; emit(^x, %d); nl(); }" % (n, ity(c["t"]), lit, c["t"]["w"])
+        T, w = ity(c["t"]), c["t"]["w"]
+        if site == "annc":
+            return "k%d :: () { x : %s : %s; y := x; emit(^y, %d); nl(); }" % (n, T, lit, w)
+        if site == "gann":
+            return "G%d : %s : %s;\nk%d :: () { y := G%d; emit(^y, %d); nl(); }" % (n, T, lit, n, n, w)
+        if site == "ret":
+            return "r%d :: () -> %s { %s }\nk%d :: () { y := r%d(); emit(^y, %d); nl(); }" % (n, T, lit, n, n, w)
+        if site == "field":
+            return "S%d :: struct { g: u8, f: %s };\nk%d :: () { s := S%d.{ g = 1, f = %s }; emit(^s.f, %d); nl(); }" % (n, T, n, n, lit, w)
+        if site == "elem":
+            return "k%d :: () { a : [2]%s = .[%s, 1]; emit(^a[0], %d); nl(); }" % (n, T, lit, w)
+        if site == "asg":
+            return "k%d :: () { x : %s = 0; x = %s; emit(^x, %d); nl(); }" % (n, T, lit, w)
         if site == "arith":
             return "k%d :: () { t : %s = 1; r := t * %s; emit(^r, %d); nl(); }" % (n, ity(c["t"]), lit, c["t"]["w"])
         if site == "arg":
@@ -137,7 +150,7 @@ def run(chk):
         obs = recs[k]["obs"]
         want = b.get("want", {})
         if c["k"] == "int":
-            kind = "acceptance" if (c["site"] in ("ann", "arith", "arg") and want.get("accept") != obs["acc"]) else "value"
+            kind = "acceptance" if (c["site"] not in ("local", "global") and want.get("accept") != obs["acc"]) else "value"
             sig = {"kind": kind, "site": c["site"], "w": c["t"]["w"], "s": c["t"]["s"], "p": c["t"]["p"],
                    "accepted": obs["acc"]}
         else:
@@ -159,7 +172,8 @@ def run(chk):
     chk.cov["exhaustive"] = True
     chk.cov["rule"] = ("every case of LiteralsMC.tla: boundary values (MAX-1, MAX, MAX+1 of each integer type, "
                        "2^31, 2^32, 2^63, 2^64-1, powers of ten) x spellings (decimal, grouped with _, hex, binary, "
-                       "e-exponents) x use sites (annotated, in arithmetic with a typed operand, argument, "
+                       "e-exponents) x use sites (annotated mutable / immutable local, annotated global, function "
+                       "result, struct field, array element, assignment, in arithmetic with a typed operand, argument, "
                        "unannotated local / global) x 12 integer types; every char / string escape; float "
                        "literals with exactly determined values")
     if notrun:
